@@ -325,8 +325,13 @@ static void uaf_hit(Block *b, uintptr_t a, const char *what)
            "%s of freed block #%u (tag %d, size %u, allocated by vt%d) at offset %lu by vt%d in '%s' at step %lu",
            what, b->seq, b->tag, b->size, b->vt, static_cast<unsigned long>(a - b->addr), me ? me->id : -1,
            me && me->ctx ? me->ctx : "-", static_cast<unsigned long>(G.step));
-  char cls[64];
-  snprintf(cls, sizeof(cls), "heap/use-after-free/tag%d", b->tag);
+  char cls[96];
+  // "/plain-step": found while plain accesses were scheduling points, i.e. under an interleaving finer than the atomic steps
+  if (G.cfg.plain_sched) {
+    snprintf(cls, sizeof(cls), "heap/use-after-free/tag%d/plain-step in %.40s", b->tag, me && me->in_api && me->ctx ? me->ctx : "-");
+  } else {
+    snprintf(cls, sizeof(cls), "heap/use-after-free/tag%d", b->tag);
+  }
   abort_run(kViolation, cls, m);
 }
 
